@@ -34,7 +34,10 @@ RULE = ("random compounds with 0..12 labile hydrogens written H[1] (20% none), n
         "fasta tables (amino acids incl. averaged codes, nucleic acid components, carbohydrates, "
         "lipids, RNA/DNA bases and codes) + beta casein + random sequences; 7 fixed + 25 (quick) random user-built "
         "Molecule(formula, density=natural density) with a non-labile isotope label (D, H[2], C[13], N[15], O[18]) next "
-        "to 0..8 H[1], judged against D2O_match / D2O_sld / neutron_sld at that natural density; non-trivial when the "
+        "to 0..8 H[1], judged against D2O_match / D2O_sld / neutron_sld at that natural density; 13 fixed + 12 (quick) "
+        "random user-built Molecule(formula carrying its own density, cell_volume=V) judged against the same functions at "
+        "density mass/(N_A V); the module's D2Omatch(sld, Dsld) of every molecule; the substituted compound also built "
+        "with fasta.isotope_substitution(portion=d); non-trivial when the "
         "compound has a labile hydrogen and another atom; distinct by canonical input")
 
 H1, HN, DD = (1, 1, 0), (1, 0, 0), (1, 2, 0)
@@ -111,6 +114,13 @@ def eval_real(pt, case):
     sub = f.replace(h1, d, portion=case["d"]).replace(h1, h)
     out["substituted"] = sub
     out["sub_sld"] = sld3(nsf.neutron_sld(sub, **kw))
+    # the biomolecule module's own helper for replacing labile hydrogen (a fraction d -> D, the rest -> H)
+    try:
+        from periodictable import fasta as _fasta
+        sub2 = _fasta.isotope_substitution(_fasta.isotope_substitution(f, h1, d, portion=case["d"]), h1, h)
+        out["fasta_sub"] = (sld3(nsf.neutron_sld(sub2, **kw)), sub2.mass / sub2.density if sub2.density else None)
+    except Exception as e:  # noqa
+        out["fasta_sub"] = "raises %s: %s" % (type(e).__name__, e)
     fm = out["match"][0]
     out["at_match"] = [float(nsf.D2O_sld(f, volume_fraction=v, D2O_fraction=fm, **kw)[0]) for v in (0.0, 0.37, 1.0)]
     # the same compound as a string, with the documented table= keyword and a freshly initialised private
@@ -241,6 +251,16 @@ def judge(run, pt, orc, case, replies):
             run.violation("D2O_sld at volume fraction 1 (%s part) differs from the compound with a fraction d of H[1] -> D "
                           "and the rest -> H: %r vs %r" % (name, out["sld_vf1"][j], out["sub_sld"][j]), case, site="solute")
             break
+    fs = out.get("fasta_sub")
+    if isinstance(fs, str):
+        run.violation("fasta.isotope_substitution(compound, H[1], D, portion=d) %s" % fs, case, site="fasta-substitution")
+    elif fs is not None:
+        if not all(tol_close(out["sld_vf1"][j], fs[0][j], scale) for j in (0, 1)):
+            run.violation("D2O_sld at volume fraction 1 differs from the compound with a fraction d of H[1] -> D and the rest "
+                          "-> H built with fasta.isotope_substitution(..., portion=d): %r vs %r" % (out["sld_vf1"][:2], fs[0][:2]),
+                          case, site="fasta-substitution")
+        elif fs[1] is not None and not tol_close(fs[1], f.mass / f.density, f.mass / f.density):
+            run.violation("fasta.isotope_substitution changed the cell volume", case, site="fasta-substitution")
     # (b) vf = 0 is the solvent mixture; water SLDs from the Decimal oracle
     mh = orc.mass((1, 0, 0)) * 2 + orc.mass((8, 0, 0))
     md = orc.mass((1, 2, 0)) * 2 + orc.mass((8, 0, 0))
@@ -441,6 +461,75 @@ def user_molecule_failures(text, rho):
     return bad
 
 
+VOLUME_MOLECULES = [("Na", None, 25.0), ("H[1]2", None, 30.0), ("C2H2H[1]NO", "1.6n", 85.0), ("C3H4H[1]NO", "1.29", 91.5),
+                    ("C6H5H[1]7O6", "object:1.54", 250.0), ("Fe", None, 40.0), ("C16D31H[1]2NO", "1.02n", 480.0),
+                    ("C2H3H[1]NO", "object:0.4", 71.0)]
+
+
+def volume_molecules(rng, n):
+    """(formula text, own density spelling, cell volume): formulas that already carry a density - a single element
+    (its tabulated density), '@<rho>' / '@<rho>n' in the text, or a Formula object whose density was set - given to
+    Molecule together with cell_volume="""
+    out = list(VOLUME_MOLECULES)
+    for text, _ in user_molecules(rng, n)[len(USER_MOLECULES):]:
+        rho = round(rng.uniform(0.5, 2.5), 3)
+        spell = rng.choice(["%r", "%rn", "object:%r"]) % rho
+        out.append((text, spell, round(rng.uniform(40.0, 900.0), 2)))
+    for sym in ("K", "Cl", "Ca", "Mg", "D"):
+        out.append((sym, None, round(rng.uniform(15.0, 60.0), 2)))
+    return out
+
+
+def volume_molecule_failures(text, spell, V):
+    """what `fasta.Molecule(name, <formula with its own density>, cell_volume=V)` reports vs the nsf functions for that
+    compound in a cell of volume V (density = mass / (N_A V)), the H- and D-forms at that same cell volume"""
+    from periodictable import nsf, fasta
+    from periodictable.formulas import formula
+    from periodictable.constants import avogadro_number
+    tbl = __import__("periodictable").elements
+    try:
+        if spell is None:
+            arg = text
+        elif spell.startswith("object:"):
+            arg = formula(text)
+            arg.density = float(spell[7:])
+        else:
+            arg = "%s@%s" % (text, spell)
+        m = fasta.Molecule("user", arg, cell_volume=V)
+        grid = GRID + [(0.0, 0.35), (0.35, 0.0)]
+        got = [float(m.D2Osld(volume_fraction=vf, D2O_fraction=d)) for vf, d in grid]
+        got_sld, got_dsld, got_match, got_v = float(m.sld), float(m.Dsld), float(m.D2Omatch), float(m.cell_volume)
+    except Exception as e:  # noqa
+        return ["raises %s: %s" % (type(e).__name__, e)]
+    try:
+        lab = formula(text)
+        per_cell = 1e24 / (avogadro_number * V)          # g/cm3 per g/mol in a cell of V A^3
+        hf = lab.replace(tbl.H[1], tbl.H)
+        df = lab.replace(tbl.H[1], tbl.D)
+        hs = float(nsf.neutron_sld(hf, density=hf.mass * per_cell)[0])
+        ds = float(nsf.neutron_sld(df, density=df.mass * per_cell)[0])
+        rho = lab.mass * per_cell
+        fm = float(nsf.D2O_match(text, density=rho)[0])
+        want = [float(nsf.D2O_sld(text, volume_fraction=vf, D2O_fraction=d, density=rho)[0]) for vf, d in grid]
+    except Exception as e:  # noqa
+        return ["the nsf functions raise %s: %s" % (type(e).__name__, e)]
+    scale = max(abs(hs), abs(ds), abs(float(fasta.D2O_SLD))) + 1e-300
+    bad = []
+    if not close(got_v, V):
+        bad.append("cell_volume %r, given %r" % (got_v, V))
+    if not tol_close(got_sld, hs, scale):
+        bad.append("sld %r, neutron_sld of the H-form in a cell of %r A^3 gives %r" % (got_sld, V, hs))
+    if not tol_close(got_dsld, ds, scale):
+        bad.append("Dsld %r, neutron_sld of the D-form in a cell of %r A^3 gives %r" % (got_dsld, V, ds))
+    if math.isfinite(fm) and not tol_close(got_match, 100 * fm, 100 * (1 + abs(fm)), rel=1e-9):
+        bad.append("D2Omatch %r, D2O_match at density mass/(N_A x %r A^3) gives %r %%" % (got_match, V, 100 * fm))
+    for (vf, d), a, b in zip(grid, got, want):
+        if not tol_close(a, b, scale):
+            bad.append("D2Osld(%r, %r) = %r, D2O_sld at density mass/(N_A x %r A^3) gives %r" % (vf, d, a, V, b))
+            break
+    return bad
+
+
 def stage_fasta(run, pt, tl, quick):
     from periodictable import nsf, fasta
     mols = fasta_molecules(pt, run.rng, quick)
@@ -463,6 +552,16 @@ def stage_fasta(run, pt, tl, quick):
         if not tol_close(m.D2Omatch, 100 * float(match[0]), 100 * (1 + abs(float(match[0]))), rel=1e-9):
             run.violation("fasta molecule %s: D2Omatch %r is not 100 x D2O_match fraction %r" % (name, m.D2Omatch, match[0]),
                           inp, site="fasta-match")
+        try:
+            fn = [float(fasta.D2Omatch(m.sld, m.Dsld)), float(fasta.D2Omatch(Hsld=m.sld, Dsld=m.Dsld))]
+        except Exception as e:  # noqa
+            run.violation("fasta.D2Omatch(sld, Dsld) of molecule %s raises %s: %s" % (name, type(e).__name__, e), inp,
+                          site="fasta-match-function")
+        else:
+            if not all(tol_close(x, 100 * float(match[0]), 100 * (1 + abs(float(match[0]))), rel=1e-9) for x in fn):
+                run.violation("fasta molecule %s: the module's D2Omatch(sld, Dsld) = %r is not the match point as a percentage, "
+                              "100 x D2O_match fraction = %r (Molecule.D2Omatch %r)" % (name, fn[0], 100 * float(match[0]), m.D2Omatch),
+                              inp, site="fasta-match-function")
         if not (tol_close(m.sld, float(slds[2][0]), scale) and tol_close(m.Dsld, float(slds[3][0]), scale)):
             run.violation("fasta molecule %s: sld/Dsld differ from the H-/D-substituted SLDs of D2O_sld" % name,
                           inp, site="fasta-sld")
@@ -535,6 +634,16 @@ def stage_fasta(run, pt, tl, quick):
         bad = user_molecule_failures(text, rho)
         if bad:
             run.violation("fasta.Molecule(%r, density=%r): %s" % (text, rho, "; ".join(bad[:3])), inp, site="fasta-user-density")
+    # a molecule a user builds with cell_volume= from a formula that already carries a density of its own (a single
+    # element, '@<rho>' in the text, a Formula object with a density): "at unchanged cell volume" - the SLDs and the
+    # match point are those of the compound in the cell the class reports as `cell_volume`
+    for text, spell, V in volume_molecules(run.rng, 12 if quick else 300):
+        inp = dict(molecule="Molecule(%r, cell_volume=%r)" % (text if spell is None else "%s @ %s" % (text, spell), V),
+                   formula=text, own_density=spell, cell_volume=V)
+        run.count(key="fasta-volume:%s:%s:%r" % (text, spell, V), nontrivial=True, tag="fasta-user-volume")
+        bad = volume_molecule_failures(text, spell, V)
+        if bad:
+            run.violation("fasta.%s: %s" % (inp["molecule"], "; ".join(bad[:3])), inp, site="fasta-user-volume")
     # the module-level solvent SLDs
     for got, s in ((fasta.H2O_SLD, "H2O@0.9982n"), (fasta.D2O_SLD, "D2O@0.9982n")):
         if not close(float(got), float(nsf.neutron_sld(s)[0])):
@@ -578,6 +687,10 @@ def replay(data) -> int:
     for v in data.get("violations", []) + data.get("disagreements", []):
         case = v["input"]
         print("input:", case, "|", v.get("what", v.get("corr")))
+        if "cell_volume" in case and "formula" in case:
+            print("  failures now:", volume_molecule_failures(case["formula"], case["own_density"], case["cell_volume"])
+                  or "none: the property holds here")
+            continue
         if "natural_density" in case and "formula" in case:
             print("  failures now:", user_molecule_failures(case["formula"], case["natural_density"]) or "none: the property holds here")
             continue
